@@ -209,6 +209,38 @@ def r5(ctx):
     ctx.floor(rule, n, "C18.R5.calls")
 
 
+def r7(ctx):
+    rule = "C18.R7"
+    ctx.rule(rule, "the .proto has no defaults: ProtobufWriter::write_default writes the value whatever it is - its write_value call does "
+                   "not depend on a comparison with C::DEFAULT_VALUE (proto3 decoders read an absent field as 0 / \"\" / false, not as "
+                   "the ASN.1 DEFAULT, and the generated schema does not carry it)")
+    P = ctx.program()
+    bs = [b for b in P.lib_bodies("asn1rs") if b.file.endswith("rw/proto_write.rs") and b.name == "write_default" and b.def_kind == "AssocFn"]
+    if len(bs) != 1:
+        ctx.fail(rule, "anchor-lost:write_default", "matched %d bodies" % len(bs))
+        return
+    b = bs[0]
+    n = 0
+    for body in [b] + P.closures_of(b):
+        O = X.Origins(body, P)
+        for cs in body.calls():
+            if cs.name != "write_value":
+                continue
+            n += 1
+            bad = None
+            for s_bb, ex, val in R.path_conditions(body, O, cs.bb):
+                txt = X.render(X.strip(ex))
+                if "DEFAULT_VALUE" in txt:
+                    bad = txt[:80]
+            d = {"function": body.path, "write_value_at": cs.loc()}
+            if bad:
+                ctx.fail(rule, "write_default#conditional", "the value of a DEFAULT component is written only under `%s`: a value equal to "
+                                                            "the default leaves no field on the wire" % bad, cs.loc(), d)
+            else:
+                ctx.ok(rule, "write_default#unconditional", d)
+    ctx.floor(rule, n, "C18.R7.writes")
+
+
 def run(ctx):
     with open(os.path.join(VERIF, "tables", "proto3_wire.json")) as fh:
         table = json.load(fh)
@@ -220,3 +252,4 @@ def run(ctx):
     # a nested message must be written with its field number and length, as the .proto declares it
     from .c17 import r8 as root_flag_consumed
     root_flag_consumed(ctx, rule="C18.R6")
+    r7(ctx)
